@@ -149,7 +149,7 @@ static RouteRes runRoute(const LPModel& M, const NamedLP& user, const Route& r, 
          loadRational(s1, M, r.loadMode & 1);
       }
       else loadReal(s1, M, r.loadMode);
-      NameSet rns, cns;
+      NameSet rns(32), cns(32);
       DIdxSet iv;
       if(r.names) fillNameSets(in, rns, cns);
       if(r.ints) for(int j = 0; j < M.n; j++) if(in.isInt[j]) iv.addIdx(j);
@@ -196,7 +196,7 @@ static RouteRes runRoute(const LPModel& M, const NamedLP& user, const Route& r, 
          s2.setIntParam(SoPlex::SYNCMODE, SoPlex::SYNCMODE_AUTO, true);
          s2.setIntParam(SoPlex::READMODE, SoPlex::READMODE_RATIONAL, true);
       }
-      NameSet rn2, cn2;
+      NameSet rn2(32), cn2(32);
       DIdxSet iv2;
       bool ok = false;
       std::string thrown;
@@ -533,7 +533,7 @@ static void caseDual(long long k, Rng& g)
       SoPlex s2;
       quiet(s2);
       bool ok = false;
-      NameSet rn2, cn2;      // (readLPF leaks its internal NameSets when none are passed: reported separately, not part of C12)
+      NameSet rn2(32), cn2(32);      // (readLPF leaks its internal NameSets when none are passed: reported separately, not part of C12)
       try
       {
          ok = s2.readFile(path.c_str(), &rn2, &cn2);
@@ -657,7 +657,7 @@ static std::string fileOnce(const std::string& lit, const Q& q, bool mps, bool r
          s.setIntParam(SoPlex::SYNCMODE, SoPlex::SYNCMODE_AUTO, true);
          s.setIntParam(SoPlex::READMODE, SoPlex::READMODE_RATIONAL, true);
       }
-      NameSet rn, cn;
+      NameSet rn(8), cn(8);
       bool ok = s.readFile(path.c_str(), &rn, &cn);
       if(!ok) out = "R";
       else
